@@ -27,7 +27,7 @@ from pyvc.values import Obj, Opaque, SInt, SList, SSeq, SU, SymExc, U, to_z3
 
 from checks.c08 import api_mod, exc_is, first_index, undecorated, utils_mod
 
-LEVEL = "proof"
+LEVEL = "other"
 API = "iodata.api"
 UT = "iodata.utils"
 INNER = f"{API}._reissue_warnings.<locals>.inner"
